@@ -107,7 +107,7 @@ Definition c03_core_ops : list op :=
    OCreate 1 9%N; ODestroy (LArch 0) KEnt TAny (RRaw 3%N 3%N); ODestroy (LArch 1) KEnt TAny (RRaw 3%N 3%N); ODestroy (LArch 1) KEnt TAny (RRaw 3%N 3%N); OLen 1;
    OCreate 1 11%N; OToDirect LWorld KEnt TAny (RRaw 3%N 4%N); OToDirect LWorld KEnt TAny (RRaw 3%N 3%N); OToDirect LWorld KEnt TAny (RRaw 7%N 4%N);
    OToDirect (LArch 1) KEnt TAny (RRaw 3%N 4%N); OToDirect (LArch 0) KEnt TAny (RRaw 3%N 4%N); OToDirect LWorld KEnt TAny (RRaw 3%N 0%N);
-   OToDirect LWorld KEnt TAny (RRaw 4294967043%N 4%N); OConv KEnt (RRaw 3%N 4%N); OConv KEnt (RRaw 1027%N 0%N); OConv KEnt (RRaw 7%N 9%N)].
+   OToDirect LWorld KEnt TAny (RRaw 4294967043%N 4%N); OConv KEnt (RRaw 3%N 4%N); OConv KEnt (RRaw 1027%N 0%N); OConv KEnt (RRaw 7%N 9%N); ODump 1; ODump 0; ODump 5].
 Example C03_core_language_instance :
   forallb (l1_op c03_core_decl) c03_core_ops = true /\
   spec_check (Config false false true) c03_core_decl [] (ONew [1; 1] :: c03_core_ops)
